@@ -1,7 +1,7 @@
 """C08 - fragments and mixins are honoured as reusable base types (E-Z subclass / sole-validation queries + E-X)."""
 import re
 
-from vlib import boot, corpus, ezcheck, ezrun, gen
+from vlib import boot, corpus, ezcheck, ezrun, gen, xh
 
 LEVEL = "translation_validation"
 # operations that trigger the two listed import-time defects are left out of half of the packages so that those are analysable
@@ -48,6 +48,16 @@ def run(rep, tier):
             sig = classify_import_failure(r["import"])
             rep.violation(sig, {"schema": job["schema"], "queries": job["queries"], "config": job["config"], "q": "import"},
                           f"emitted package does not load: {[v for v in r['import']['modules'].values() if v != 'ok'][:2]}")
+    # ---- @mixin placements (E-X)
+    from harness import C08_mixin as HM
+
+    parts = xh.write_module("hC08_parts", HM.parts_source())
+    targets = [f"{parts}.check_mixin_p{i}" for i in range(8)] + ["harness.C08_mixin.twin_all_sites_on"]
+    xres = xh.run_targets(targets, timeout=600 if tier == "quick" else 1800)
+    xh.fold(rep, parts, [r for r in xres if r.target.startswith(parts)])
+    xh.fold(rep, "harness.C08_mixin", [r for r in xres if not r.target.startswith(parts)])
+    rep.coverage["mixin_placement_subsets"] = 2 ** HM.NS
+    rep.coverage["mixin_harness_results"] = [{"target": r.target.rsplit(".", 1)[-1], "status": r.status, "wall_s": round(r.wall, 1)} for r in xres]
     rep.coverage.update({
         "programs": progs, "packages": len(jobs), "operations": ops, "fragment_spread_sites": sites, "packages_not_analysed": gen_fail,
         "disagreements_checked": sum(len(r["findings"]) for r in results),
@@ -55,7 +65,7 @@ def run(rep, tier):
         "explanation": "per qualifying spread site: z3 unsat of (Conf & live & selected-class-not-subclass) and of (Conf & live & !Acc_F(sub-payload)); plus import of every emitted package",
     })
     rep.assume("qualifying spread = direct child of the selection set, no @skip/@include, fragment type == selection type, fragment without inline fragments",
-               "@mixin placement and symbolic definition/iteration orders are covered by the E-X harnesses (C08_order, C08_mixin)")
+               "@mixin: every subset of 7 placement sites (plain field, field spreading a fragment, nested in an inline fragment, fragment definition, fragment spreading a fragment, two mixins, list field) x definition order is explored by CrossHair (harness/C08_mixin.py); symbolic set-iteration orders of the fragment sort are covered by C10")
 
 
 def replay(data):
